@@ -72,7 +72,11 @@ def gen(n, seed):
 def apply_mut(root, m):
     p = os.path.join(root, m["file"])
     lines = open(p).read().split("\n")
-    assert lines[m["line"] - 1] == m["old"], "source drifted"
+    if lines[m["line"] - 1] != m["old"]:
+        # the source moved (a fix commit since the mutants were generated): accept the line if it still occurs exactly once
+        hits = [i for i, l in enumerate(lines) if l == m["old"]]
+        assert len(hits) == 1, "source drifted"
+        m = dict(m, line=hits[0] + 1)
     if m["new"] is None:
         del lines[m["line"] - 1]
     else:
